@@ -610,7 +610,7 @@ class Interp(ExprMixin):
             if name in Z3_CONSTS:
                 return ("z3var", Z3_CONSTS[name], targs[0] if targs else NONE)
             if name in Z3_FRESH:
-                return ("fresh", Z3_FRESH[name], (str(self.site(node)),) + tuple(l[1] for l in self.loops))
+                return ("fresh", Z3_FRESH[name], (str(self.site(node)), getattr(node, "col_offset", 0)) + tuple(l[1] for l in self.loops))
             if name == "Function":
                 return ("z3func", targs[0] if targs else NONE)
             if name == "Array":
@@ -1018,7 +1018,12 @@ def _run_once(project, entry: Entry, config: Config) -> Run:
         body = fn.body
     else:
         m = project.module(entry.module)
-        fn = project.function(entry.module, entry.name)
+        fn = project.function(entry.module, entry.name.split(".")[0])
+        for part in entry.name.split(".")[1:]:
+            inner = [n for n in ast.walk(fn) if isinstance(n, ast.FunctionDef) and n.name == part and n is not fn]
+            if not inner:
+                raise P.AnalysisError(f"anchor vanished: nested function {entry.module}.{entry.name}")
+            fn = inner[0]
         env = {}
         for p in fn.args.posonlyargs + fn.args.args + fn.args.kwonlyargs:
             env[p.arg] = ("sym", p.arg)
